@@ -247,6 +247,40 @@ pub fn run(a: &Args) {
             check_trace(&mut o, name, bytes, &ops, &tr, *total);
         }
     }
+    // ---- finish() in the early-flush state: a highly compressible frame of more than 32 KiB whose data sequence is consumed and flushed while
+    // its last rows are still buffered - after a successful finish() those rows must not be handed out either
+    {
+        use crate::pngbuild::*;
+        for (w, h, nframes) in [(8u32, 3645u32, 1u32), (16, 1930, 2), (40, 900, 1)] {
+            let mut chunks = vec![ihdr(w, h, 8, 0, 0)];
+            if nframes > 1 { chunks.push(actl_chunk(nframes, 0)); }
+            let mut seq = 0u32;
+            for f in 0..nframes {
+                let mut raw = vec![];
+                for _ in 0..h { raw.push(0u8); raw.extend(std::iter::repeat(17u8.wrapping_mul(f as u8 + 1)).take(w as usize)); }
+                let z = zlib_flate2(&raw, 9);
+                if nframes > 1 { chunks.push(fctl_chunk(seq, w, h, 0, 0, 1, 10, 0, 0)); seq += 1; }
+                if f == 0 { chunks.push(Chunk::new(b"IDAT", z)); } else { chunks.push(fdat_chunk(seq, &z)); seq += 1; }
+            }
+            chunks.push(Chunk::new(b"IEND", vec![]));
+            let bytes = assemble(&chunks);
+            let name = format!("tall-compressible-{}x{}x{}", w, h, nframes);
+            for back in 1..=6usize {
+                for tail in [vec![Op::Row, Op::Frame, Op::Row], vec![Op::Frame, Op::Frame], vec![Op::IRow, Op::ReadRow, Op::FrameInfo], vec![Op::ReadRow, Op::Finish, Op::Frame]] {
+                    let mut ops: Vec<Op> = vec![];
+                    if nframes > 1 { ops.push(Op::Frame); }
+                    ops.extend((0..(h as usize - back)).map(|i| if i % 2 == 0 { Op::Row } else { Op::ReadRow }));
+                    ops.push(Op::Finish);
+                    ops.extend(tail);
+                    o.mark(&format!("finish-in-early-flush {} back={} ops-tail={}", name, back, ops_string(&ops).chars().rev().take(8).collect::<String>()));
+                    let tr = run_ops(&bytes, &[0], bytes.len(), Opts::default(), 0, None, &ops, 0x77);
+                    o.direct_checks += 1;
+                    o.count("finish-in-early-flush-state");
+                    check_trace(&mut o, &name, &[], &ops, &tr, Some(nframes as usize));
+                }
+            }
+        }
+    }
     // ---- StreamingDecoder::reset: all ordered pairs from a set of streams (complete, truncated mid-IDAT, failing at each stage)
     let mut streams: Vec<(String, Vec<u8>)> = vec![];
     for k in 0..(if thorough { 10 } else { 5 }) {
